@@ -23,14 +23,17 @@ BOUNDS = {'quick': 'N=2 initial facts, schedules of L=4 actions (6 action kinds,
 EXPLANATION = ('CrossHair executes the real query/retract generators and assert/retract builtins under a symbolic schedule that '
                'interleaves steps of two suspended enumerations with modifications of the same predicate; each observation is compared '
                'with a snapshot (logical update view) model on every path; CONFIRMED = path tree exhausted')
-ACTIONS = ['E1', 'E2', 'asserta', 'assertz', 'retract1', 'retractall']
+ACTIONS = ['E1', 'E2', 'asserta', 'assertz', 'retract1', 'retractall', 'scan']
+
+
+NACT = 6        # 7 in the units that include the 'scan' action
 
 
 def spec_for(n, length):
     spec = [('n', 'int', '0 <= n <= %d' % n)]
     spec += [('f%d' % i, 'int', None) for i in range(n)]
     for i in range(length):
-        spec.append(('a%d' % i, 'int', '0 <= a%d <= 5' % i))
+        spec.append(('a%d' % i, 'int', '0 <= a%d <= %d' % (i, NACT - 1)))
         spec.append(('c%d' % i, 'int', None))
     return spec
 
@@ -102,6 +105,17 @@ def make_body(n, length, info):
                         ch.note(info, 'step %d: enumeration retract(p(Y)) gave %r, model %r', step, got, exp)
                         return ch.VIOLATED
                     observed += 1
+                elif act == 'scan':
+                    # a second, complete enumeration of the same predicate while the others are suspended
+                    Zs = yp.variable()
+                    got = []
+                    for _ in yp.query('p', [Zs]):
+                        got.append(Zs.get_value())
+                        if len(got) > 12:
+                            break
+                    if got != [x[0] for x in store]:
+                        ch.note(info, 'step %d: complete enumeration gave %r, model %r', step, got, [x[0] for x in store])
+                        return ch.VIOLATED
                 else:
                     if e1 is not None or e2 is not None:
                         modified_while_suspended = True
@@ -170,6 +184,11 @@ def units(tier, seed):
             us.append(dict(id=tag + '.' + '-'.join(ACTIONS[a] for a in combo), n=n, length=length, fixed=fx, ob='C14.a',
                            timeout=300 if tier == 'quick' else 900, weight=40,
                            bounds='%d initial facts max, schedule length %d starting with %s' % (n, length, [ACTIONS[a] for a in combo])))
+    # a complete enumeration between the steps of a suspended one, followed by modifications (7 action kinds)
+    for combo in ((0, 6), (6, 0), (1, 6)):
+        fx = {'a%d' % i: a for i, a in enumerate(combo)}
+        us.append(dict(id='s.' + '-'.join(ACTIONS[a] for a in combo), n=2, length=4, fixed=fx, nact=7, ob='C14.a', timeout=300 if tier == 'quick' else 900, weight=40,
+                       bounds='2 initial facts max, schedule length 4 starting with %s, 7 action kinds incl. a complete scan' % [ACTIONS[a] for a in combo]))
     if tier == 'quick':
         # interleavings of the two enumerations over THREE initial facts (index shifts under in-place removal need a third fact)
         for combo in ((0, 1), (1, 0), (1, 1), (0, 0)):
@@ -181,6 +200,8 @@ def units(tier, seed):
 
 
 def build(u):
+    global NACT
     info = {}
+    NACT = u.get('nact', 6)
     spec, body = make_body(u['n'], u['length'], info)
     return ch.harness_from_spec(u['id'], spec, u['fixed'], body, info=info)
